@@ -554,4 +554,6 @@ def run(P, R, tier):
     c15.load_merges(P, Remap(R, {'C15.MPT.3': 'C18.MPT.6', 'C15.WMC.1': 'C18.MPT.6'}))
     # a message too long for the scratch buffer is formatted a second time: from a copy taken before the first walk
     rules.va_list_once(P, R, 'C18.MPT.7')
+    # the growing buffer a long message is formatted into takes "exactly as long as the room" for "too long"
+    rules.snprintf_fit(P, R, 'C18.MPT.8', [f for f in P.fns.values() if not f.unit.startswith('tests/')])
     return EXPLANATION, ASSUMPTIONS
